@@ -150,7 +150,10 @@ let parse_flags s =
 
 exception Violation of string
 
-let holds args case impl =
+let rec holds args case impl =
+  if String.length impl >= 5 && String.sub impl 0 5 = "CRASH" then "fail the node aborted on this script (an assertion of the node, e.g. CheckBlockIndex, fired): " ^ impl
+  else holds_checked args case impl
+and holds_checked args case impl =
   let mode = match args with m :: _ -> m | [] -> "C08" in
   let u = new_universe () in
   let cur : (int, fl) Hashtbl.t = Hashtbl.create 64 in
